@@ -2,9 +2,9 @@
 (* Binding G for C19: every state of the bounded PQueue universe is emitted
    with the shortest operation history reaching it and the model's projection
    (per queue: kind and the live prefix of the backing array). *)
-EXTENDS PQueue, Json
+EXTENDS PQueueMC, Json
 VARIABLE hist
-GInit == Init /\ hist = << [op |-> "new", kind |-> last.kind] >>
+GInit == Init /\ hist = << [op |-> "new", kind |-> last.kind, items |-> [i \in 1..Len(last.items) |-> [p |-> last.items[i][1], t |-> last.items[i][2]]]] >>
 Rec == IF last'.op = "push" THEN [op |-> "push", q |-> last'.q, p |-> last'.it[1], t |-> last'.it[2]]
        ELSE IF last'.op \in {"pop", "peek"} THEN [op |-> last'.op, q |-> last'.q, p |-> last'.it[1], t |-> last'.it[2]]
        ELSE [op |-> "reverse", q |-> last'.q]
